@@ -38,7 +38,7 @@ package manifest
 // streamValid: what parseManifestStream establishes and what the range mapping
 // relies on: block offsets are the running sums of the block sizes and every
 // file token lies inside the stream (no wrap-around of the 64-bit sums).
-//@ spec macro streamValid(m) bool = len(m.blockOffsets) == len(m.Blocks)+1 && len(m.Blocks) >= 1 && m.blockOffsets[0] == 0 && (forall i int :: 0 <= i && i < len(m.Blocks) ==> m.blockOffsets[i] <= m.blockOffsets[i+1]) && (forall k int :: 0 <= k && k < len(m.FileStreamSegments) ==> m.FileStreamSegments[k].SegPos + m.FileStreamSegments[k].SegLen <= m.blockOffsets[len(m.Blocks)])
+//@ spec macro streamValid(m) bool = m.blockOffsets[len(m.Blocks)] <= 18446744073709551615 && len(m.blockOffsets) == len(m.Blocks)+1 && len(m.Blocks) >= 1 && m.blockOffsets[0] == 0 && (forall i, j int :: 0 <= i && i <= j && j <= len(m.Blocks) ==> m.blockOffsets[i] <= m.blockOffsets[j]) && (forall i int :: 0 <= i && i < len(m.Blocks) ==> m.blockOffsets[i+1] - m.blockOffsets[i] <= 9223372036854775807) && (forall k int :: 0 <= k && k < len(m.FileStreamSegments) ==> m.FileStreamSegments[k].SegPos + m.FileStreamSegments[k].SegLen <= m.blockOffsets[len(m.Blocks)])
 
 //@ func ParseBlockLocator trusted
 //@   modifies fresh(mem:string)
@@ -54,8 +54,27 @@ package manifest
 //@   loop 1: invariant 0 <= i && i <= len(tokens)
 //@   loop 2: invariant m.Err == nil && len(m.Blocks) == nb && nb >= 1 && len(m.blockOffsets) == nb + 1 && len(m.FileStreamSegments) == 0
 //@   loop 2: invariant forall j int :: 0 <= j && j < $i ==> m.blockOffsets[j] <= streamoffset
-//@   loop 2: invariant forall j int :: 0 <= j && j + 1 < $i ==> m.blockOffsets[j] <= m.blockOffsets[j+1]
+//@   loop 2: invariant forall j, k int :: 0 <= j && j <= k && k < $i ==> m.blockOffsets[j] <= m.blockOffsets[k]
+//@   loop 2: invariant forall j int :: 0 <= j && j + 1 < $i ==> m.blockOffsets[j+1] - m.blockOffsets[j] <= 9223372036854775807
+//@   loop 2: invariant $i > 0 ==> streamoffset - m.blockOffsets[$i-1] <= 9223372036854775807
 //@   loop 2: invariant ($i > 0 ==> m.blockOffsets[0] == 0) && ($i == 0 ==> streamoffset == 0)
 //@   loop 3: invariant len(m.Blocks) == nb && nb >= 1 && len(m.blockOffsets) == nb + 1 && m.blockOffsets[0] == 0 && m.blockOffsets[nb] == streamoffset
-//@   loop 3: invariant forall j int :: 0 <= j && j < nb ==> m.blockOffsets[j] <= m.blockOffsets[j+1]
+//@   loop 3: invariant forall j, k int :: 0 <= j && j <= k && k <= nb ==> m.blockOffsets[j] <= m.blockOffsets[k]
+//@   loop 3: invariant forall j int :: 0 <= j && j < nb ==> m.blockOffsets[j+1] - m.blockOffsets[j] <= 9223372036854775807
 //@   loop 3: invariant m.Err == nil && (forall k int :: 0 <= k && k < len(m.FileStreamSegments) ==> m.FileStreamSegments[k].SegPos + m.FileStreamSegments[k].SegLen <= streamoffset)
+
+// The range mapping: for a valid stream both panics are unreachable, no index
+// or 64-bit arithmetic goes out of range, and every segment sent for a file
+// token (wantPos, wantLen) is the intersection of the token's byte range with
+// one block: it starts at max(wantPos, blockPos) and ends at
+// min(wantPos+wantLen, blockEnd), relative to the block.
+//@ func ManifestStream.sendFileSegmentIterByName property C10 arith checked
+//@   requires streamValid(s)
+//@   ghost i0 int = 0
+//@   at assign i#1: set i0 = i
+//@   loop 1: invariant s == old(s)
+//@   loop 2: invariant s == old(s) && 0 <= i0 && i0 <= i && i <= len(s.Blocks) && i0 < len(s.Blocks) && s.blockOffsets[i0+1] > wantPos && wantLen > 0 && wantPos + wantLen <= s.blockOffsets[len(s.Blocks)]
+//@   at send#2: assert fseg.Offset >= 0 && fseg.Len >= 0
+//@   at send#2: assert blockPos + uint64(fseg.Offset) == max(wantPos, blockPos)
+//@   at send#2: assert blockPos + uint64(fseg.Offset) + uint64(fseg.Len) == min(wantPos + wantLen, blockEnd)
+//@   at send#2: assert fseg.Locator == s.Blocks[i]
